@@ -386,46 +386,93 @@ def search(ctx, impl):
 
 
 def raw_search(ctx):
-    """the translators refused the source: look for a failing instruction without the tables
-    (classes and operand types straight from the flavour objects)"""
+    """The translators refused the source (the shared table translator fails closed, e.g. when a from_operands no longer
+    returns the operands it was given): table-free search for a concrete failing instruction.  Instruction classes come
+    from the live Flavour objects, instances are built DIRECTLY through the dataclass constructors (not from_operands)
+    with operand objects chosen by the field type annotations, and the text oracle is run on them:
+    parse_text_subroutine(str(i)) == [i], and text -> binary -> text gives the same line."""
     import codec_tables as ct
     try:
         encoding, operand, fl = ct.load(ctx.repo)
+        from netqasm.lang.parsing import deserialize
         from netqasm.lang.parsing.text import parse_text_subroutine
     except Exception:  # noqa
         return
     rng = ctx.rng
+    imm_pool = [0, 1, 2, 3, 4, 8, 16, 32, 255, 6, 12, 24]
+    n = 0
     for fname, flav in ct.flavours(fl):
         for cls in list(fl.CORE_INSTRUCTIONS) + list(flav.instrs):
             try:
-                _, kinds = ct.operand_fields(cls)
+                names, kinds = ct.operand_fields(cls)
             except Exception:  # noqa
                 continue
-            for _ in range(20):
-                leaves, ops = [], []
-                for k in kinds:
-                    lv = {"KReg": [rng.randrange(4), rng.randrange(16)], "KImm": [rng.randint(-5, 300)],
+            for _ in range(25):
+                leaves, kw = [], {}
+                for nm, k in zip(names, kinds):
+                    lv = {"KReg": [rng.randrange(4), rng.randrange(16)],
+                          "KImm": [rng.choice(imm_pool) if rng.random() < 0.8 else rng.randint(0, 255)],
                           "KAddr": [rng.randint(0, 9)], "KEntry": [rng.randint(0, 9), rng.randrange(4), rng.randrange(16)],
                           "KSlice": [rng.randint(0, 9), rng.randrange(4), rng.randrange(16), rng.randrange(4),
                                      rng.randrange(16)]}[k]
                     leaves += lv
-                    ops.append(ct.mk_operand(operand, encoding, k, lv))
+                    kw[nm] = ct.mk_operand(operand, encoding, k, lv)
+                n += 1
+                what, text, back_view, lines2 = None, "<not printed>", None, None
                 try:
-                    instr = cls.from_operands(ops)
+                    instr = cls(**kw)
                     text = str(instr)
-                    back = list(parse_text_subroutine(ac.HEADER + text + "\n", flavour=flav).instructions)
-                    ok = back == [instr]
-                except Exception:  # noqa
-                    ok, text = False, "<raised>"
-                if not ok:
-                    ctx.violation("parse_text_subroutine(str(instr), flavour).instructions != [instr]",
-                                  dict(flavour=fname, cls=cls.__name__, operands_given=leaves, printed=text), key=None)
+                    sub = parse_text_subroutine(ac.HEADER + text + "\n", flavour=flav)
+                    back = list(sub.instructions)
+                    back_view = [[type(b).__name__, [str(o) for o in b.operands]] for b in back]
+                    if back != [instr]:
+                        what = "parse_text_subroutine(str(instr), flavour).instructions != [instr]"
+                    else:
+                        lines2 = [str(b) for b in deserialize(bytes(sub), flavour=flav).instructions]
+                        if lines2 != [text]:
+                            what = "text -> binary -> text rewrites the line"
+                except Exception as e:  # noqa
+                    what = "printing / parsing / encoding the instruction raised " + type(e).__name__
+                if what is not None:
+                    ctx.violation(what + " (table-free search: instance built through the dataclass constructor)",
+                                  dict(flavour=fname, cls=cls.__name__, fields={k: str(v) for k, v in kw.items()},
+                                       operand_leaves=leaves, printed=text, parsed_back=back_view,
+                                       after_binary=lines2, table_free=True), key=None)
+                    ctx.coverage["table_free_search"] = dict(instances=n, found=True)
                     return
+    ctx.coverage["table_free_search"] = dict(instances=n, found=False)
+
+
+def replay_table_free(ctx, rec):
+    import codec_tables as ct
+    encoding, operand, fl = ct.load(ctx.repo)
+    from netqasm.lang.parsing import deserialize
+    from netqasm.lang.parsing.text import parse_text_subroutine
+    flav = dict(ct.flavours(fl))[rec["flavour"]]
+    cls = next(c for c in list(fl.CORE_INSTRUCTIONS) + list(flav.instrs) if c.__name__ == rec["cls"])
+    names, kinds = ct.operand_fields(cls)
+    kw, i = {}, 0
+    for nm, k in zip(names, kinds):
+        kw[nm] = ct.mk_operand(operand, encoding, k, rec["operand_leaves"][i:i + ct.NLEAVES[k]])
+        i += ct.NLEAVES[k]
+    instr = cls(**kw)
+    text = str(instr)
+    try:
+        sub = parse_text_subroutine(ac.HEADER + text + "\n", flavour=flav)
+        ok = list(sub.instructions) == [instr] and [str(b) for b in deserialize(bytes(sub), flavour=flav).instructions] == [text]
+    except Exception:  # noqa
+        ok = False
+    print("replay:", text, "ok" if ok else "FAILS")
+    if not ok:
+        ctx.violation("the printed instruction does not parse back to it / text -> binary -> text rewrites it", rec)
+    ctx.finish()
 
 
 def replay(ctx, path):
     rec = json.load(open(path))
     rec = rec.get("replay", rec)
+    if rec.get("table_free"):
+        return replay_table_free(ctx, rec)
     impl = ac.prepare(ctx)
     if "instr" in rec:
         r = run_one(impl, rec["flavour"], rec["instr"], rec.get("after"), rec.get("plan"), rec.get("lineno"))
